@@ -329,6 +329,32 @@ func (expr Expression) variablesUsed(acc map[string]struct{}) {
 	case ExpressionTypeTypeCast:
 		expr.TypeCast.Expression.variablesUsed(acc)
 		return
+	case ExpressionTypeCoalesce:
+		for _, arg := range expr.Coalesce.Arguments {
+			arg.variablesUsed(acc)
+		}
+		return
+	case ExpressionTypeTuple:
+		for _, arg := range expr.Tuple.Arguments {
+			arg.variablesUsed(acc)
+		}
+		return
+	case ExpressionTypeObjectFieldAccess:
+		expr.ObjectFieldAccess.Object.variablesUsed(acc)
+		return
+	case ExpressionTypeQueryExpression:
+		// Collect all variables used anywhere in the subquery. Variable names are unique, so the ones
+		// defined inside of the subquery can't be confused with the ones it uses from outer scopes.
+		t := Transformers{
+			ExpressionTransformer: func(expr Expression) Expression {
+				if expr.ExpressionType == ExpressionTypeVariable {
+					acc[expr.Variable.Name] = struct{}{}
+				}
+				return expr
+			},
+		}
+		t.TransformNode(expr.QueryExpression.Source)
+		return
 	}
 
 	panic("unexhaustive expression type match")
